@@ -60,7 +60,7 @@ Qed.
 Print Assumptions c10_fire_goroutine_fires_exactly_once.
 
 Theorem c10_fired_count_stable : forall k0 c s e,
-  match e with ERelSect _ | EStartCons _ | EConsStep _ | EConsCancel _ | EFire _ => False | _ => True end ->
+  match e with ERelSect _ | EStartCons _ | EConsStep _ | EConsCancel _ | EFire _ | ECbReturn _ _ => False | _ => True end ->
   fired_done c k0 (conss s) -> fired_done c k0 (conss (step repaired s e)).
 Proof. exact fired_stays. Qed.
 Print Assumptions c10_fired_count_stable.
